@@ -64,7 +64,7 @@ SPEC['C07'] = ('Cyclic task requirements are detected instead of recursing', ['L
   ('C07_cycle_aborts_before_execution', 'Local', 'require_cycle_aborts',
    'if reserving the require edge is rejected as a cycle, require aborts with a cyclic dependency whatever make_task_consistent would do: it is never entered'),
 ], 'Together with C10 (add_edge rejects exactly when the destination reaches the source) this gives detection for cycles of any length; no re-entry is proved over whole top-down sessions (ExecInv.v); for bottom-up builds it is decided by correspondence + oracle.')
-SPEC['C08'] = ('Recorded dependencies are exactly those of the latest execution', ['Findings', 'Local2', 'History', 'ExecInv', 'ExecSession', 'Cert', 'Stable', 'NoBug4', 'Sim', 'Final'], [
+SPEC['C08'] = ('Recorded dependencies are exactly those of the latest execution', ['Findings', 'Local2', 'History', 'ExecInv', 'ExecSession', 'Cert', 'Stable', 'NoBug4', 'Sim', 'Final', 'CertAll'], [
   ('C08_general_refuted', 'Findings', 'C08_general_refuted', 'recorded finding (O7): with two different checkers on one target only the last require checker is kept'),
   ('C08_require_records_checker_and_stamp', 'Local2', 'update_require_dependency_done', 'a completed require records exactly DRequire t c stamp on the edge from the executing task'),
 ], 'PARTIAL: exactness over whole executions is decided by the store-dump correspondence and the op-log oracle.')
@@ -113,6 +113,13 @@ CLASS_BINDERS = '''  forall (RC : rcid -> rchecker) (OC : ocid -> ochecker) (P :
   (forall t, NR [] (P t)) ->                                          (* no program touches a target twice in one execution *)
 '''
 RAW['C08'] = [
+  ('C08_exact_record_any_history',
+   'the same for ALL histories: top-down requires and bottom-up builds in any mix, external changes, any number of aborted builds (CertAll.v, anchor style with equality frames for the rows of the protected tasks): for every task that has an output the store holds exactly one complete run of its program',
+   CLASS_BINDERS + """  forall fuel h,
+  forall t o, get_task_output (snd (run_history RC OC P always fuel init_world h)) t = Some o ->
+    Rep RC OC sf (row (snd (run_history RC OC P always fuel init_world h)) t) (P t) [] o
+        (kidsT (snd (run_history RC OC P always fuel init_world h)) t)""",
+   'intros RC OC P sf always HS HNR fuel h t o. exact (exact_record_any_history RC OC P sf HS HNR always fuel h t o).'),
   ('C08_exact_record_all_histories',
    'for ALL programs of the class, checkers, fuel and ALL histories of top-down sessions and external changes from the empty store (also after aborted builds): for every task that has an output, the dependencies held by the store (row = edge data, kidsT = edge order) are EXACTLY the requires, reads and writes of one complete run of its program ending in that output: same targets in the same order, the checker that was passed, a stamp of the value that run saw; nothing left over (Rep is defined in Proofs/Cert.v)',
    CLASS_BINDERS + """  forall fuel h, td_hist h ->
